@@ -562,14 +562,18 @@ def rules(repo=None):
 
 
 EXPLANATION = (
-    "Ordering check. R1: in the C write path, error returns are classified by def-use as input rejections (their "
-    "controlling conditions read only parameters, cursor/config fields and results of effect-free functions) and none is "
-    "reachable from a persistent effect (file-system/HDF5 mutators, cursor-field stores, calls of may-effect functions) "
-    "without crossing the per-file loop's back edge; the validation loop visits every block; the validating call dominates "
-    "every effect. R2: in DigitalRFWriter.rf_write/rf_write_blocks every raise precedes the extension call (or is its own "
-    "failure handler) and every self.* store follows its normal exit. R3: the extension maps every non-zero library result "
-    "to an exception. R4: the forward-only comparison guards the write loop. Does NOT decide that the predicates are "
-    "arithmetically right.")
+    'Ordering check. R1: in the C write path, error returns are classified by def-use as input rejections (their '
+    'controlling conditions read only parameters, cursor/config fields and results of effect-free functions) and none is '
+    'reachable from a persistent effect (file-system/HDF5 mutators, cursor-field stores, calls of may-effect functions) '
+    "without crossing the per-file loop's back edge; the validation loop visits every block; the validating call "
+    'dominates every effect. R2: in DigitalRFWriter.rf_write/rf_write_blocks every raise precedes the extension call (or '
+    'is its own failure handler) and every self.* store follows its normal exit. R3: the extension maps every non-zero '
+    'library result to an exception. R4: the forward-only comparison guards the write loop. R5: in '
+    'digital_rf_create_hdf5_file no effect node (store to a field of the writer object, close / publish / create call) '
+    "can reach an existence test whose 'found' side refuses the call - a write into a file that already exists is refused"
+    ' before anything is changed (a later repetition of the same test is the race window only). R6: every path of '
+    'digital_rf_write_blocks_hdf5 to return(0) passes the per-file validation or, for an empty vector, a test of the '
+    'offsets array that can end in an error. Does NOT decide that the predicates are arithmetically right.')
 TECHNIQUE = ('clang JSON AST + Python ast; CFG reachability between effects and input-rejection returns; effect summaries over the call tree; dominance')
 ASSUMPTIONS = ["the effect table (clib.EFFECT_CALLS, cursor fields) is complete for this library",
                "gmtime/snprintf/strcmp are effect-free", "clang 14 AST and CPython ast are faithful"]
